@@ -20,6 +20,7 @@ import TnVerif.Model.TTMatrix
 import TnVerif.Model.Cross
 import TnVerif.Model.Cat
 import TnVerif.Model.Pad
+import TnVerif.Model.TTMatMul
 /-
   Line-protocol driver (DESIGN §2.6).  One request per line on stdin, one answer per line on
   stdout.  Tokens are separated by blanks; numbers are integers or `p/q`.
@@ -477,6 +478,54 @@ def run (cmd : String) : PM String := do
       let p := pairIdx is js os
       let (a, b) := splitIdx p os
       return "ok " ++ showNats p ++ " | " ++ showNats a ++ " | " ++ showNats b
+  | "tt_trace" | "tt_matvec" | "tt_dense" => do
+      -- TT matrix: <N> then per core `rl inD outD rr` and its rl*inD*outD*rr entries (row-major, numpy reshape(-1))
+      let n ← pNat
+      let mut cores : Array (Core4 Q) := #[]
+      for _ in [0:n] do
+        let rl ← pNat; let i ← pNat; let o ← pNat; let rr ← pNat
+        let a ← pArr (rl * i * o * rr)
+        let f : Nat → Nat → Nat → Nat → Q := fun p q r t =>
+          if p < rl ∧ q < i ∧ r < o ∧ t < rr then a.getD (((p * i + q) * o + r) * rr + t) 0 else 0
+        cores := cores.push ⟨rl, i, o, rr, f⟩
+      let m : TTMat Q := cores.toList
+      if cmd == "tt_trace" then return "ok S " ++ showQ m.trace
+      else if cmd == "tt_dense" then
+        -- the matrix `torch()` returns, row-major
+        let rows := m.inDims.prod; let cols := m.outDims.prod
+        return "ok " ++ showQs ((List.range (rows * cols)).map fun t => m.torch (t / cols) (t % cols))
+      else
+        -- then <nb> and the nb*rows entries of the batch of row vectors (row-major)
+        let nb ← pNat
+        let x ← pArr (nb * m.inDims.prod)
+        let res := m.multiply nb (fun k => x.getD k 0)
+        return "ok " ++ showQs ((List.range (nb * m.outDims.prod)).map res)
+  | "kron_det" => do
+      -- <N> then per block its size and its determinant: the loop of TTMatrix.determinant
+      let n ← pNat
+      let mut bl : Array (Nat × Q) := #[]
+      for _ in [0:n] do
+        let k ← pNat; let d ← pQ
+        bl := bl.push (k, d)
+      return "ok S " ++ showQ (kronDet bl.toList)
+  | "cp_matvec" | "cp_dense" => do
+      -- CP matrix: <N> then per core `inD outD rank` and its inD*outD*rank entries (row-major); then <nb> and the vectors
+      let n ← pNat
+      let mut cores : Array (Core3 Q) := #[]
+      for _ in [0:n] do
+        let i ← pNat; let o ← pNat; let rk ← pNat
+        let a ← pArr (i * o * rk)
+        let f : Nat → Nat → Nat → Q := fun q r t =>
+          if q < i ∧ r < o ∧ t < rk then a.getD ((q * o + r) * rk + t) 0 else 0
+        cores := cores.push ⟨i, o, rk, f⟩
+      let m : CPMat Q := cores.toList
+      if cmd == "cp_dense" then
+        let rows := m.inDims.prod; let cols := m.outDims.prod
+        return "ok " ++ showQs ((List.range (rows * cols)).map fun t => m.torch (t / cols) (t % cols))
+      let nb ← pNat
+      let x ← pArr (nb * m.inDims.prod)
+      let res := m.multiply nb (fun k => x.getD k 0)
+      return "ok " ++ showQs ((List.range (nb * m.outDims.prod)).map res)
   | _ => throw s!"unknown command {cmd}"
 
 def handle (line : String) : String :=
